@@ -13,11 +13,11 @@ import (
 // to the file named by VERIF_STATS when the test ends.
 type Rec struct {
 	mu        sync.Mutex
-	Prop      string         `json:"prop"`
-	Sub       string         `json:"sub"`
-	Rule      string         `json:"rule"`
-	Evals     int            `json:"evals"`
-	Nontriv   int            `json:"nontrivial_total"`
+	Prop      string `json:"prop"`
+	Sub       string `json:"sub"`
+	Rule      string `json:"rule"`
+	Evals     int    `json:"evals"`
+	Nontriv   int    `json:"nontrivial_total"`
 	distinct  map[uint64]struct{}
 	Distinct  []uint64       `json:"distinct_hashes"`
 	Classes   map[string]int `json:"classes"`
